@@ -562,7 +562,14 @@ def rule_R7(ctx):
               "Some(base) iff |raw/multiplier - base| <= base * tolerance", "acceptance test of the grid snap is %s" % oks, ctx.loc(b))
 
 
+def rule_twins(ctx):
+    """the IPv4 and IPv6 copies of the per-packet functions route sides, roles and lookups identically (shared rule TW)"""
+    from . import _twins as TW
+    TW.twin_agreement(ctx, ctx.program, "TW", ("huginn_net_tcp",), floor=4)
+
+
 def run(ctx):
+    rule_twins(ctx)
     rule_R7(ctx)
     rule_R6(ctx)
     rule_R1_R2(ctx)
